@@ -1,6 +1,7 @@
 package chain
 
 import (
+	"bytes"
 	"errors"
 	"fmt"
 	"math/rand"
@@ -1065,4 +1066,91 @@ func (s *Sim) Step() (BlockPlan, consensus.ApplyUpdate, error) {
 		return p, au, fmt.Errorf("generator produced a block core rejects at height %d: %w", s.ChildHeight(), err)
 	}
 	return p, au, nil
+}
+
+// ---------------------------------------------------------------- helpers for adversarial harnesses
+
+// ResignV1 replaces the signatures of a v1 transaction (whole-transaction
+// signatures by the wallet keys of every listed parent), so that an edited
+// transaction is wrong only where the editor intended.
+func (s *Sim) ResignV1(txn *types.Transaction) bool {
+	txn.Signatures = nil
+	for _, in := range txn.SiacoinInputs {
+		if s.recipeFor(in.UnlockConditions.UnlockHash()) == nil {
+			return false
+		}
+	}
+	for _, in := range txn.SiafundInputs {
+		if s.recipeFor(in.UnlockConditions.UnlockHash()) == nil {
+			return false
+		}
+	}
+	for _, r := range txn.FileContractRevisions {
+		if s.recipeFor(r.UnlockConditions.UnlockHash()) == nil {
+			return false
+		}
+	}
+	s.signV1(s.Tip, txn)
+	return true
+}
+
+// ResignV2 re-satisfies the spend policies of every input of a v2 transaction.
+func (s *Sim) ResignV2(txn *types.V2Transaction) bool {
+	p := &v2Pending{txn: *txn}
+	for _, in := range txn.SiacoinInputs {
+		r := s.recipeFor(in.Parent.SiacoinOutput.Address)
+		if r == nil {
+			return false
+		}
+		p.scRecipe = append(p.scRecipe, r)
+	}
+	for _, in := range txn.SiafundInputs {
+		r := s.recipeFor(in.Parent.SiafundOutput.Address)
+		if r == nil {
+			return false
+		}
+		p.sfRecipe = append(p.sfRecipe, r)
+	}
+	s.signV2(s.Tip, p)
+	*txn = p.txn
+	return true
+}
+
+// RecipeFor exposes the spending recipe of an address.
+func (s *Sim) RecipeFor(a types.Address) *Recipe { return s.recipeFor(a) }
+
+// SignContract signs a v2 contract (revision) with the given parties' keys.
+func (s *Sim) SignContract(fc *types.V2FileContract, renter, host types.PublicKey) {
+	s.signContract(fc, renter, host)
+}
+
+// KeyFor returns the wallet key for a public key.
+func (s *Sim) KeyFor(pk types.PublicKey) types.PrivateKey { return s.keyFor(pk) }
+
+// NewAddr returns a fresh wallet address.
+func (s *Sim) NewAddr(v2only bool) types.Address { return s.newAddr(v2only, s.Times[len(s.Times)-1]) }
+
+// Spendable reports whether an address can be spent now by the given version.
+func (s *Sim) Spendable(a types.Address, v2 bool) bool {
+	return s.spendable(s.recipeFor(a), v2, s.Times[len(s.Times)-1])
+}
+
+// DeepCopyBlock returns an independent copy of a block (via its encoding).
+func DeepCopyBlock(b types.Block) types.Block {
+	var buf bytes.Buffer
+	e := types.NewEncoder(&buf)
+	types.V2Block(b).EncodeTo(e)
+	e.Flush()
+	var b2 types.Block
+	d := types.NewBufDecoder(buf.Bytes())
+	(*types.V2Block)(&b2).DecodeFrom(d)
+	return b2
+}
+
+// CopySupp returns an independent copy of a supplement.
+func CopySupp(bs consensus.V1BlockSupplement) consensus.V1BlockSupplement {
+	var out consensus.V1BlockSupplement
+	d := types.NewBufDecoder(Encode(bs))
+	out.DecodeFrom(d)
+	return out
 }
